@@ -38,6 +38,14 @@ pub enum DropAt {
     RequestHandedOut,
     /// surplus workers are about to retire (4.9999 s idle)
     WorkersRetiring,
+    /// four requests on three connections (two of them pipelined on one, one with a body of
+    /// 3000 bytes that was not read) are handed out; the server is dropped; 30 virtual seconds
+    /// later another thread answers them all, in reverse order, with 70000 bytes each
+    SeveralHandedOutLate,
+    /// one connection pipelines two requests; the application received the first and left
+    /// the second in the queue; the thread that holds the first drops the server and
+    /// answers afterwards
+    HeldAndSuccessorQueued,
 }
 
 #[derive(Clone, Debug, PartialEq)]
@@ -62,6 +70,8 @@ impl Sc {
                 Some("RequestQueued") => DropAt::RequestQueued,
                 Some("RequestHandedOut") => DropAt::RequestHandedOut,
                 Some("WorkersRetiring") => DropAt::WorkersRetiring,
+                Some("SeveralHandedOutLate") => DropAt::SeveralHandedOutLate,
+                Some("HeldAndSuccessorQueued") => DropAt::HeldAndSuccessorQueued,
                 _ => DropAt::End,
             },
             burst_at_retirement: v["burst_at_retirement"].as_u64().map(|x| x as usize),
@@ -77,6 +87,8 @@ pub struct O {
     /// live threads after each idle period longer than 5 s: (threads, open connections)
     pub after_idle: Vec<(usize, usize, u64)>,
     pub refused_after_drop: Option<bool>,
+    /// a connection attempt one second after the drop, while a handed-out request is still unanswered
+    pub refused_while_held: Option<bool>,
     pub handed_out_answered: Option<bool>,
     pub racing_client: Option<String>,
     pub threads_at_end: Option<usize>,
@@ -328,6 +340,92 @@ pub fn body(sc: Sc, obs: Arc<Mutex<O>>) {
             obs.lock().unwrap().handed_out_answered = Some(ok && buf.windows(14).any(|w| w == b"after the drop"));
             open.push(c);
         }
+        DropAt::SeveralHandedOutLate => {
+            srv.server.unblock();
+            if let Some(a) = app.take() {
+                let _ = a.join();
+            }
+            let c1 = connect(&addr, 80, &ConnSpec::default()).expect("connect");
+            let c2 = connect(&addr, 81, &ConnSpec::default()).expect("connect");
+            let c3 = connect(&addr, 82, &ConnSpec::default()).expect("connect");
+            let _ = c1.send(b"GET /h1 HTTP/1.1\r\nHost: t\r\n\r\nGET /h2 HTTP/1.1\r\nHost: t\r\n\r\n");
+            let _ = c2.send(format!("POST /h3 HTTP/1.1\r\nHost: t\r\nContent-Length: 3000\r\n\r\n{}", "b".repeat(3000)).as_bytes());
+            let _ = c3.send(b"GET /h4 HTTP/1.0\r\nConnection: keep-alive\r\n\r\n");
+            let mut rqs = Vec::new();
+            for _ in 0..4 {
+                rqs.push(srv.server.recv().expect("recv"));
+            }
+            ctl::settle();
+            ctl::window(true);
+            let responder = thread::spawn_named(Some("responder".into()), move || {
+                ctl::sleep(Duration::from_secs(30));
+                // connections in reverse order; the two of one connection in wire order (one
+                // thread cannot answer the second before the first: it would wait for its turn)
+                rqs.sort_by_key(|r| match r.url() {
+                    "/h4" => 3,
+                    "/h3" => 2,
+                    "/h1" => 1,
+                    _ => 0,
+                });
+                while let Some(rq) = rqs.pop() {
+                    let body = format!("after the drop {}", rq.url()).repeat(4000);
+                    let _ = rq.respond(Response::from_string(body));
+                }
+            });
+            drop(srv);
+            ctl::settle();
+            ctl::window(false);
+            let _ = responder.join();
+            ctl::settle();
+            let mut all = true;
+            for (c, urls) in [(&c1, vec!["/h1", "/h2"]), (&c2, vec!["/h3"]), (&c3, vec!["/h4"])] {
+                let d = c.drain();
+                let st = crate::httpparse::parse_stream(&d.segments.concat(), &vec![false; urls.len()]);
+                let fin = st.finals();
+                if st.error.is_some() || fin.len() != urls.len() {
+                    all = false;
+                } else {
+                    for (m, u) in fin.iter().zip(urls.iter()) {
+                        if m.status != 200 || m.body != format!("after the drop {}", u).repeat(4000).into_bytes() {
+                            all = false;
+                        }
+                    }
+                }
+            }
+            obs.lock().unwrap().handed_out_answered = Some(all);
+            open.push(c1);
+            open.push(c2);
+            open.push(c3);
+        }
+        DropAt::HeldAndSuccessorQueued => {
+            srv.server.unblock();
+            if let Some(a) = app.take() {
+                let _ = a.join();
+            }
+            let c = connect(&addr, 80, &ConnSpec::default()).expect("connect");
+            let _ = c.send(b"GET /held HTTP/1.1\r\nHost: t\r\n\r\nGET /queued HTTP/1.1\r\nHost: t\r\n\r\n");
+            let rq = srv.server.recv().expect("recv");
+            ctl::settle();
+            ctl::window(true);
+            // this very thread holds the request, drops the server and answers afterwards -
+            // one virtual second afterwards: new connections must be refused by then although
+            // the request is still held
+            drop(srv);
+            ctl::settle();
+            if addr.is_listening() {
+                ctl::sleep(Duration::from_millis(1000));
+                ctl::settle();
+            }
+            let refused = connect(&addr, 96, &ConnSpec::default()).is_err();
+            obs.lock().unwrap().refused_while_held = Some(refused);
+            let _ = rq.respond(Response::from_string("after the drop"));
+            ctl::settle();
+            ctl::window(false);
+            let mut buf = Vec::new();
+            let ok = answered(&c, &mut buf);
+            obs.lock().unwrap().handed_out_answered = Some(ok && buf.windows(14).any(|w| w == b"after the drop"));
+            open.push(c);
+        }
         DropAt::BeforeAnyConnection => unreachable!(),
     }
     for c in open.iter_mut() {
@@ -369,6 +467,12 @@ pub fn judge(sc: &Sc, o: &O, res: &RunResult) -> Vec<(String, String)> {
         f.push((
             format!("still-accepting:{:?}", sc.drop_at).to_lowercase(),
             "after the server was dropped (and everything that can run has run) a new connection attempt is still accepted: the listening socket was not released".into(),
+        ));
+    }
+    if o.refused_while_held == Some(false) {
+        f.push((
+            "still-accepting:while-a-request-is-held".into(),
+            "one second after the server was dropped a new connection attempt is still accepted; the application holds an unanswered request whose pipelined successor was still queued at the drop (refusal may not wait for the application)".into(),
         ));
     }
     if o.handed_out_answered == Some(false) {
@@ -467,7 +571,7 @@ fn items(tier: Tier) -> &'static Vec<(Sc, u32)> {
             v.push((Sc { bursts: vec![Burst { n, close: false, idle_ms: 5100 }, Burst { n: 8, close: true, idle_ms: LONG_IDLE_MS }], drop_at: DropAt::End, burst_at_retirement: None }, 0));
         }
         // server drop at every position, schedules explored around the drop
-        for drop_at in [DropAt::BeforeAnyConnection, DropAt::RacingWithConnect, DropAt::RequestQueued, DropAt::RequestHandedOut, DropAt::WorkersRetiring, DropAt::End] {
+        for drop_at in [DropAt::BeforeAnyConnection, DropAt::RacingWithConnect, DropAt::RequestQueued, DropAt::RequestHandedOut, DropAt::SeveralHandedOutLate, DropAt::HeldAndSuccessorQueued, DropAt::WorkersRetiring, DropAt::End] {
             for pre in [vec![], vec![Burst { n: 1, close: true, idle_ms: 0 }], vec![Burst { n: 6, close: true, idle_ms: 0 }], vec![Burst { n: 2, close: false, idle_ms: 0 }]] {
                 if drop_at == DropAt::WorkersRetiring && pre.iter().all(|x| x.n < 5) {
                     continue;
@@ -536,7 +640,7 @@ impl Check for C20 {
     }
     fn rule(&self, tier: Tier) -> String {
         format!(
-            "histories of 1..{} bursts (3 in both tiers) of N in {:?} connections (each answered; closed or left open) followed by {:?} ms of virtual idleness, at the default schedule; a burst of 8 / 12 (thorough 32) whose idle period P is measured passively, then the same burst followed by 40 single connections one every P/4 (each worker needed at most every 2P: the surplus ones must be gone when the trickle ends); bursts of 300 / 1100 (thorough 2100) connections followed by the long idle period and a further burst; server drop {{before any connection, racing with a connecting client, with a request queued but never received, with a request handed out and answered afterwards, while surplus workers are retiring, at the end}} after histories {{none, 1 closed, 6 closed, 2 open}} with all schedules of at most {} deviations (strict; one less after the longer histories) around the drop; a burst of 1/2/5 arriving exactly when the surplus workers of a burst of 5/6/8 reach their 5 s idle timeout (left open: all must be answered; or closed and followed by 120 s of idleness: threads must be reclaimed), same bound; {} scenarios; oracle: after the drop and quiescence a new connect is refused in every schedule, a handed-out request is still answered and its bytes reach the client, every burst is answered completely, threads alive after 120 s of idleness (far above any sensible idle period; the statement names none) <= baseline + open connections; non-trivial = all",
+            "histories of 1..{} bursts (3 in both tiers) of N in {:?} connections (each answered; closed or left open) followed by {:?} ms of virtual idleness, at the default schedule; a burst of 8 / 12 (thorough 32) whose idle period P is measured passively, then the same burst followed by 40 single connections one every P/4 (each worker needed at most every 2P: the surplus ones must be gone when the trickle ends); bursts of 300 / 1100 (thorough 2100) connections followed by the long idle period and a further burst; server drop {{before any connection, racing with a connecting client, with a request queued but never received, with a request handed out and answered afterwards, with four requests handed out on three connections (two pipelined, one with an unread 3000-byte body, one HTTP/1.0 keep-alive) and answered 30 s after the drop, connections in reverse order, with 60000-byte bodies, with the first of two pipelined requests held by the very thread that drops the server and answers afterwards while the second is still queued (a connection attempt one second after the drop, before the answer, must be refused), while surplus workers are retiring, at the end}} after histories {{none, 1 closed, 6 closed, 2 open}} with all schedules of at most {} deviations (strict; one less after the longer histories) around the drop; a burst of 1/2/5 arriving exactly when the surplus workers of a burst of 5/6/8 reach their 5 s idle timeout (left open: all must be answered; or closed and followed by 120 s of idleness: threads must be reclaimed), same bound; {} scenarios; oracle: after the drop and quiescence a new connect is refused in every schedule, a handed-out request is still answered and its bytes reach the client, every burst is answered completely, threads alive after 120 s of idleness (far above any sensible idle period; the statement names none) <= baseline + open connections; non-trivial = all",
             if tier == Tier::Thorough { 3 } else { 2 }, if tier == Tier::Thorough { vec![1, 4, 5, 8] } else { vec![1, 5, 8] },
             if tier == Tier::Thorough { vec![0, 4900, 5100, 11000, LONG_IDLE_MS] } else { vec![0, 4900, 5100, LONG_IDLE_MS] }, if tier == Tier::Thorough { 2 } else { 1 }, items(tier).len()
         )
